@@ -185,6 +185,7 @@ class Soap11(XmlDocument):
         # SOAP requires DateTime strings to be in iso format. The following
         # lines make sure custom datetime formatting via
         # DateTime(dt_format="...") (or similar) is bypassed.
+        self._to_unicode_handlers[Date] = lambda cls, value: value.isoformat()
         self._to_unicode_handlers[Time] = lambda cls, value: value.isoformat()
         self._to_unicode_handlers[DateTime] = lambda cls, value: value.isoformat()
 
